@@ -50,6 +50,12 @@ cshape!(S16a16, 16, 16);
 cshape!(S48a16, 16, 48);
 cshape!(S32a32, 32, 32);
 cshape!(S64a64, 64, 64);
+// payloads larger than any small-object fast path could assume (sizes not multiples of 8)
+cshape!(S300a1, 1, 300);
+cshape!(S258a2, 2, 258);
+cshape!(S260a4, 4, 260);
+cshape!(S1000a8, 8, 1000);
+cshape!(S320a64, 64, 320);
 cshape!(S0a2, 2, 0);
 cshape!(S0a8, 8, 0);
 cshape!(S0a16, 16, 0);
